@@ -304,7 +304,7 @@ func runDiscUDP(c *fw.Ctx) {
 			sync()
 		}
 		high := hw.Stop()
-		c.Extra("udp_heap_high_water_bytes", float64(high))
+		c.Extra("udp_heap_high_water", fmt.Sprintf("batch %d: %d bytes (baseline %d)", c.Batch, high, hw.base))
 		// nothing in the discovery protocol is larger than a 1280-byte packet;
 		// per-sender state is one table/database entry
 		if high > hw.base+256<<20 {
